@@ -52,7 +52,7 @@ class CScal:
         return CScal.lift(o) - self
 
     def __mul__(self, o):
-        if isinstance(o, IArr):
+        if isinstance(o, IArr) or getattr(o, "takes_complex_scalar", False):
             return NotImplemented
         o = CScal.lift(o)
         return CScal(self.re * o.re - self.im * o.im, self.re * o.im + self.im * o.re)
@@ -75,6 +75,9 @@ class CScal:
 
     def __abs__(self):
         return ssqrt(self.re * self.re + self.im * self.im)
+
+    def _np_abs(self, args):
+        return abs(self)
 
     def conjugate(self):
         return CScal(self.re, -self.im)
